@@ -761,3 +761,119 @@ def register_branch(R, path_obj):
                    ("fresh-storage-nothing-shared-with-the-original-or-between-columns", lambda E, v, o: fresh_and_separate(E, owned_arrays(v["result"]))),
                    ("original-owner-untouched", lambda E, v, o: unchanged(E, v["self"].fields["attach"], o["self"].fields["attach"]))],
           options=dict(OPTS))
+
+    # ------------------------------------------------------------------ Compartments accessors (any number of compartments)
+    def sym_comps(S, extra=False):
+        """a Compartments list of m >= 0 compartments on one tree; compartment k is the window (P[k], C[k])"""
+        from swcgeom.core.swc_utils import get_types
+
+        t = sym_tree(S, "t", frozen=True)
+        m = S.int("m")
+        S.assume(m.z >= 0)
+        P, C = S.arr("int", n=m, name="P"), S.arr("int", n=m, name="C")
+        h = X.HandleList(Tree.Compartment, dict(attach=t, names=t.fields["names"], source="", types=get_types()), {},
+                         {"idx": ((2,), "int", None, [P.arr, C.arr])}, m.z)
+        return S.obj(Compartments, __items__=h, names=t.fields["names"]), t, P, C
+
+    def comps_setup(S, **kw):
+        cs, t, P, C = sym_comps(S)
+        return dict(self=cs, __ghost__=dict(tree=t, P=P, C=C), **kw)
+
+    def comps_pre(E, v, o):
+        t, P, C = (E.spec_extra[x] for x in ("tree", "P", "C"))
+        k = qj("k")
+        inr = lambda a: z3.And(a.get(k).z >= 0, a.get(k).z < nof(t))
+        return z3.ForAll([k], z3.Implies(z3.And(k >= 0, k < P.nz()), z3.And(inr(P), inr(C))))
+
+    CPRE = [("every-compartment-window-lies-in-the-tree", comps_pre)]
+
+    def rows_post(key_of):
+        def f(E, v, o):
+            t, P, C = (E.spec_extra[x] for x in ("tree", "P", "C"))
+            r, m = v["result"], P.nz()
+            cl = col(t, key_of(v))
+            if isinstance(r, NArr):  # no compartment at all: nothing to report
+                return z3.And(m == 0, len(r.items) == 0)
+            if not (isinstance(r, X.SRows) and r.inner == (2,) and r.uid not in E.entry_uids):
+                return False
+            k = qj("k")
+            return z3.And(r.nz() == m, z3.ForAll([k], z3.Implies(z3.And(k >= 0, k < m), z3.And(z3.Select(r.cell(0), k) == z3.Select(cl.arr, P.get(k).z),
+                                                                                              z3.Select(r.cell(1), k) == z3.Select(cl.arr, C.get(k).z)))))
+
+        return f
+
+    def shape_m2(E, v, o):
+        r = v["result"]
+        return isinstance(r, X.SRows) and r.inner == (2,)
+
+    R.add(f"{COMP}:Compartments.get_ndata", prop="C09",
+          variants={k: (lambda S, _k=k: comps_setup(S, key=_k)) for k in KEYS}, requires=CPRE,
+          ensures=[("one-row-(parent-value,child-value)-per-compartment-in-order-in-a-fresh-array", rows_post(lambda v: v["key"])),
+                   # FINDING: np.array([]) of an EMPTY Compartments (the segments of a one-node tree) has shape (0,), not the documented (n_sample, 2)
+                   ("shape-(n_sample,2)-also-for-no-compartments", shape_m2)],
+          options=dict(OPTS))
+
+    for k in KEYS:
+        R.add(f"{COMP}:Compartments.{k}", prop="C09", setup=lambda S: comps_setup(S), requires=CPRE,
+              ensures=[(f"one-row-(parent-{k},child-{k})-per-compartment-in-order-in-a-fresh-array", rows_post(lambda v, _k=k: _k))], options=dict(OPTS))
+
+    def stacked_post(names):
+        def f(E, v, o):
+            t, P, C = (E.spec_extra[x] for x in ("tree", "P", "C"))
+            r, m = v["result"], P.nz()
+            if not (isinstance(r, X.SRows) and r.inner == (2, len(names)) and r.uid not in E.entry_uids):
+                return False
+            k = qj("k")
+            body = [z3.Select(r.cell(a, j), k) == to_z3(col(t, nm).get((P, C)[a].get(k).z), "real") for a in (0, 1) for j, nm in enumerate(names)]
+            return z3.And(r.nz() == m, z3.ForAll([k], z3.Implies(z3.And(k >= 0, k < m), z3.And(*body))))
+
+        return f
+
+    # FINDING: on an EMPTY Compartments (a one-node tree has no segment) xyz()/xyzr() raise numpy's AxisError (a ValueError) instead of
+    # returning an array of shape (0, 2, 3) / (0, 2, 4): obligation exc/unexpected-ValueError
+    for fn, names in (("xyz", ("x", "y", "z")), ("xyzr", ("x", "y", "z", "r"))):
+        R.add(f"{COMP}:Compartments.{fn}", prop="C09", setup=lambda S: comps_setup(S), requires=CPRE,
+              ensures=[(f"(n_sample,2,{len(names)})-array-of-the-(parent,child)-{'-'.join(names)}-in-order", stacked_post(names))], options=dict(OPTS))
+
+    # ------------------------------------------------------------------ Branch.from_xyzr
+    def xyzr_setup(k):
+        def f(S):
+            n = S.int("n")
+            S.assume(n.z >= 0)
+            a = X.SRows([z3.Const(fresh_name(f"xyzr_{j}"), z3.ArraySort(z3.IntSort(), z3.RealSort())) for j in range(k)], n.z, (k,), "real")
+            a.frozen = True
+            return dict(cls=Branch, xyzr=a)
+
+        return f
+
+    def from_xyzr_shape(E, v, o):
+        from swcgeom.core.swc_utils import get_names
+
+        r = v["result"]
+        if not (isinstance(r, Obj) and r.cls is Branch and isinstance(r.fields.get("attach"), Obj) and r.fields["attach"].cls is DictSWC):
+            return False
+        a = r.fields["attach"]
+        return list(a.fields["ndata"].items) == KEYS and a.fields.get("names") == get_names() and r.fields.get("names") == get_names() and a.uid not in E.entry_uids
+
+    def from_xyzr_content(E, v, o):
+        m = o["xyzr"]
+        n, j = m.nz(), qj()
+        nd = v["result"].fields["attach"].fields["ndata"].items
+        want = dict(id=lambda jj: jj, type=lambda jj: z3.IntVal(3), pid=lambda jj: jj - 1,
+                    x=lambda jj: z3.Select(m.cells[0], jj), y=lambda jj: z3.Select(m.cells[1], jj), z=lambda jj: z3.Select(m.cells[2], jj),
+                    r=(lambda jj: z3.Select(m.cells[3], jj)) if m.inner == (4,) else (lambda jj: z3.RealVal(1)))
+        out = []
+        for k, a in nd.items():
+            if not isinstance(a, SArr) or a.kind != COLS[k]:
+                return False
+            out.append(z3.And(a.nz() == n, z3.ForAll([j], z3.Implies(z3.And(j >= 0, j < n), a.get(j).z == want[k](j)))))
+        idx = pidx(v["result"])
+        out.append(z3.And(idx.nz() == n, z3.ForAll([j], z3.Implies(z3.And(j >= 0, j < n), idx.get(j).z == j))))
+        return z3.And(*out)
+
+    R.add(f"{BRANCH}:Branch.from_xyzr", prop="C09",
+          variants={"(n,4)": xyzr_setup(4), "(n,3)": xyzr_setup(3)},
+          ensures=[("a-Branch-on-a-private-DictSWC-with-the-seven-SWC-columns", from_xyzr_shape),
+                   ("a-chain-0..n-1-of-type-3-with-the-given-coordinates-radius-given-or-1-window-is-all-of-it", from_xyzr_content),
+                   ("argument-untouched", lambda E, v, o: z3.And(*[a == b for a, b in zip(v["xyzr"].cells, o["xyzr"].cells)]))],
+          notes="the x/y/z(/r) columns of from_xyzr((n,4)) are numpy VIEWS onto the argument (xyzr[:, j] is a basic slice): stated content-wise only")
